@@ -81,6 +81,14 @@ class C13(KernelProp):
                                       {"op": "state", "t": 0, "c": 2}] + probes(2)      # left, although with an error
                                      + [{"op": "exit", "t": 1, "c": 3, "end": {"k": "ret"}},
                                         {"op": "exit", "t": 0, "c": 1, "end": {"k": "ret"}}]})
+            # … also when the child was entered by a task that has ended and nobody else refers to the child
+            for end in ends[:2]:
+                cases.append({"kind": "ctx", "backend": backend, "origin": f"matrix:leaked-child:{end['k']}",
+                              "ops": [{"op": "new", "t": 0, "c": 1, "parent": None}, {"op": "enter", "t": 0, "c": 1},
+                                      {"op": "new", "t": 0, "c": 2, "parent": None}, {"op": "enter", "t": 0, "c": 2},
+                                      {"op": "leak", "t": 0, "c": 3, "parent": 2},
+                                      {"op": "exit", "t": 0, "c": 2, "end": end}, {"op": "state", "t": 0, "c": 2},
+                                      {"op": "exit", "t": 0, "c": 1, "end": {"k": "ret"}}]})
         return cases
 
     def nontrivial(self, case, impl):
